@@ -1,6 +1,7 @@
 import BearVerif.Core.Sexp
 import BearVerif.Core.BearExpr
 import BearVerif.Lemmas.BearTable
+import BearVerif.Driver.Bfs
 /-!
   Line-protocol driver of the Bear core (C01 C02 C03 C09 C10 C12 C18):
     (gen ISRANDOM HINT)                 -> the generated expression
@@ -140,6 +141,6 @@ def handle : Sexp → Option Sexp
         | none => .atom "raises"
       .list [boolStr (chk W conf r h x), evs]
     pure (.list (boolStr (sat W h x) :: boolStr hyps :: rs.map one))
-  | _ => none
+  | req => Bfs.handle req          -- `(bfs …)`: the placeholder mechanism (Driver/Bfs.lean)
 
 end BearVerif.Bear
